@@ -840,4 +840,797 @@ else:
                              "props": [], "ops": [], "stratum": "exhaustive"}
                         run_case(c)
 
+
+# ======================================================================
+# Additional oracle strata (coverage audit): secondary entry points, keyword paths,
+# value types and histories that the programs above never reach.  They are not part
+# of the Coq correspondence (nothing is appended to `cases`); every stratum calls the
+# real implementation and compares with a brute-force reference written here.
+# All randomness from R, drawn AFTER the programs above (their replay is unchanged);
+# parameter combinations are cycled deterministically.
+# ======================================================================
+def xrep(stratum, **kw):
+    return {"kind": "x", "stratum": stratum, **kw}
+
+
+def x_pl(ids, pgs=None, names=None, addni=False):
+    """(ctor JSON, PhaseList) of named phases 'q<id>' at the given ids"""
+    specs = [{"n": (names[j] if names else "q%d" % i), "g": (pgs[j] if pgs else PGS[(i + j) % 10]), "s": 0}
+             for j, i in enumerate(ids)]
+    ctor = {"how": "phases", "phases": specs, "ids": list(ids)}
+    pl, _ = build_pl(copy.deepcopy(ctor))
+    if addni:
+        pl.add_not_indexed()
+    return ctor, pl
+
+
+def x_try(f):
+    try:
+        return ("ok", f())
+    except Exception as e:  # noqa
+        return ("err", exn(e))
+
+
+def x_buildable_ctor():
+    while True:
+        c = rand_ctor()
+        try:
+            pl, _ = build_pl(copy.deepcopy(c))
+        except Exception:  # noqa
+            continue
+        return c, pl
+
+
+# ---------------------------------------------------------------- X1: PhaseList entry points
+def x_phase_list_entries(m):
+    for t in range(m):
+        ctor, pl = x_buildable_ctor()
+        before = obs_pl(pl)
+        ids = [e[0] for e in before]
+        names = [e[1]["n"] for e in before]
+        rep = xrep("pl-entries", ctor=ctor)
+        # (a) public accessors agree with the dictionary
+        st("x/pl/accessors")
+        got = {"ids": [int(i) for i in pl.ids], "names": list(pl.names), "size": int(pl.size),
+               "pgs": [None if g is None else g.name for g in pl.point_groups],
+               "sgs": [0 if g is None else int(g.number) for g in pl.space_groups],
+               "iter": [[int(i), obs_phase(p)] for i, p in pl]}
+        exp = {"ids": ids, "names": names, "size": len(ids), "pgs": [e[1]["g"] for e in before],
+               "sgs": [e[1]["s"] for e in before], "iter": before}
+        if got != exp:
+            bad = [k for k in exp if got[k] != exp[k]]
+            fail(f"pl:accessors:{bad[0]}", f"PhaseList.{bad[0]} = {got[bad[0]]} but the entries are {before}", rep)
+        # (b) id_from_name
+        for nm in sorted(set(names)) + ["zzz"]:
+            st("x/pl/id_from_name")
+            hit = [e[0] for e in before if e[1]["n"] == nm]
+            exp = ("ok", hit[0]) if hit else ("err", "KeyError")
+            got = x_try(lambda: int(pl.id_from_name(nm)))
+            if got != exp:
+                fail("pl:id_from_name", f"id_from_name({nm!r}) on {before}: expected {exp}, got {got}", {**rep, "name": nm})
+        # (c) keys / deletions given as numpy integers behave as python integers; a single key returns the
+        #     very Phase object of the list
+        for i in ids[:3] + [R.randrange(-2, 9)]:
+            for ty in (np.int64, np.int32):
+                st("x/pl/index/npint")
+                exp = ("ok", dict(before)[i]) if i in ids else ("err", "KeyError")
+                got = x_try(lambda: obs_phase(pl[ty(i)]))
+                if got != exp:
+                    fail("pl:index:npint", f"pl[{ty.__name__}({i})] on {before}: expected {exp}, got {got}",
+                         {**rep, "key": i, "type": ty.__name__})
+            if i in ids:
+                st("x/pl/index/identity")
+                if pl[i] is not pl._dict[i] or (names.count(dict(before)[i]["n"]) == 1
+                                                 and pl[dict(before)[i]["n"]] is not pl._dict[i]):
+                    fail("pl:index:identity", f"pl[{i}] / pl[name] is not the Phase object held by the list", {**rep, "key": i})
+        if len(ids) >= 2:
+            st("x/pl/index/nparr-dtype")
+            ks = ids[:2]
+            for dt in (np.int32, np.int8):
+                got = x_try(lambda: obs_pl(pl[np.array(ks, dtype=dt)]))
+                exp = ("ok", [e for e in before if e[0] in ks])
+                if got != exp:
+                    fail("pl:index:nparr-dtype", f"pl[array({ks}, {dt.__name__})]: expected {exp}, got {got}", {**rep, "key": ks})
+        for ty in (np.int64, np.int32):
+            cp = pl.deepcopy()
+            i = R.choice(ids + ids + [R.randrange(-2, 9)]) if ids else 3
+            st("x/pl/del/npint")
+            exp = ("ok", [e for e in before if e[0] != i]) if i in ids else ("err", "KeyError")
+
+            def dele():
+                del cp[ty(i)]
+                return obs_pl(cp)
+            got = x_try(dele)
+            if got != exp:
+                fail("pl:del:npint", f"del pl[{ty.__name__}({i})] on {before}: expected {exp}, got {got}",
+                     {**rep, "key": i, "type": ty.__name__})
+            # (d) deepcopy is independent
+            st("x/pl/deepcopy")
+            cp2 = pl.deepcopy()
+            if obs_pl(cp2) != before:
+                fail("pl:deepcopy:differs", f"deepcopy gives {obs_pl(cp2)}, list is {before}", rep)
+            cp2.add(Phase("fresh-name", point_group="23"))
+            if ids:
+                cp2._dict[ids[0]].name = "renamed"
+                cp2._dict[ids[0]].point_group = "4"
+                del cp2[ids[-1]]
+            if obs_pl(pl) != before:
+                fail("pl:deepcopy:shared", f"changing a deepcopy changed the list: {before} -> {obs_pl(pl)}", rep)
+        # (e) add(PhaseList): phases appended in the argument's id order with incremented ids; names checked
+        mode = ["fresh", "fresh", "clash-present", "dup-in-arg"][t % 4]
+        k = [1, 2, 3][(t // 4) % 3]
+        onames = ["w%d" % j for j in range(k)]
+        if mode == "clash-present" and names:
+            onames[-1] = R.choice(names)
+        oids = R.sample(range(0, 12), k)
+        octor, other = x_pl(oids, names=onames, pgs=[PGS[(t + j) % 12] for j in range(k)])
+        if mode == "dup-in-arg" and k >= 2:
+            # a PhaseList argument whose phases share a name (reachable: names are not checked on construction)
+            other._dict[sorted(oids)[-1]].name = onames[0] if sorted(oids)[0] != sorted(oids)[-1] else "w0"
+            other._dict[sorted(oids)[0]].name = onames[0]
+        oobs = obs_pl(other)
+        tgt = pl.deepcopy()
+        exp_l, clash = list(before), False
+        for _, p in oobs:
+            if p["n"] in [e[1]["n"] for e in exp_l]:
+                clash = True
+                break
+            exp_l.append([max(e[0] for e in exp_l) + 1 if exp_l else 0, p])
+        st(f"x/pl/add/phaselist/{mode}")
+        got = x_try(lambda: tgt.add(other))
+        rep2 = {**rep, "add_phase_list": oobs}
+        if clash and got != ("err", "ValueError"):
+            fail("pl:add:phaselist:present-name-accepted",
+                 f"add(PhaseList {oobs}) to {before}: a name already present was not rejected ({got})", rep2)
+        if not clash and got[0] == "err":
+            fail("pl:add:phaselist:raises", f"add(PhaseList {oobs}) to {before} raises {got[1]}", rep2)
+        if obs_pl(tgt) != exp_l:
+            fail("pl:add:phaselist:entries", f"add(PhaseList {oobs}) to {before}: expected {exp_l}, got {obs_pl(tgt)}", rep2)
+        if obs_pl(other) != oobs:
+            fail("pl:add:phaselist:argument-altered", f"the added list changed from {oobs} to {obs_pl(other)}", rep2)
+        if not strictly_sorted([e[0] for e in obs_pl(tgt)]) and strictly_sorted(ids):
+            fail("pl:sorted:after=add-phaselist", f"ids not sorted/unique: {obs_pl(tgt)}", rep2)
+        # (f) constructor from a single Phase, and ids given as ndarray
+        sp = rand_phase_spec()
+        for idv in (None, R.randrange(-1, 9)):
+            st("x/pl/ctor/single-phase")
+            ph = mk_phase(sp)
+            exp = ("ok", [[0 if idv is None else idv, obs_phase(ph)]])
+            got = x_try(lambda: obs_pl(PhaseList(ph) if idv is None else PhaseList(ph, ids=idv)))
+            if got != exp:
+                fail("pl:ctor:single-phase", f"PhaseList(Phase, ids={idv}): expected {exp}, got {got}",
+                     xrep("pl-entries", phase=sp, ids=idv))
+        if ctor["how"] == "phases" and ctor["ids"] is not None and ctor["phases"]:
+            st("x/pl/ctor/ids-ndarray")
+            ph = [mk_phase(s_) for s_ in ctor["phases"]]
+            got = x_try(lambda: obs_pl(PhaseList(ph, ids=np.array(ctor["ids"], dtype=int))))
+            if got != ("ok", before):
+                fail("pl:ctor:ids-ndarray", f"ids as ndarray give {got}, as list {before}", rep)
+
+
+# ---------------------------------------------------------------- X2: fields constructor, other keywords
+def x_fields_ctor(m):
+    from diffpy.structure import Structure
+    from diffpy.structure.spacegroups import GetSpaceGroup
+    sgl = sorted(SGS)
+    for t in range(m):
+        k = [1, 2, 3, 1, 4][t % 5]
+        name_mode = ["list", "none", "short", "scalar"][t % 4]
+        sg_mode = ["ints", "objs", "none", "scalar", "short"][(t // 2) % 5]
+        pg_mode = ["none", "list", "scalar", "consistent"][(t // 3) % 4]
+        st_mode = ["none", "titles", "titles-long"][(t // 5) % 3]
+        id_mode = ["none", "list", "ndarray", "scalar", "short"][(t // 7) % 5]
+        if "scalar" in (name_mode, sg_mode, pg_mode, id_mode):
+            k = max(k, 1)
+        names = {"list": ["n%d" % j for j in range(k)], "none": None, "short": ["n%d" % j for j in range(k - 1)] or None,
+                 "scalar": "n0"}[name_mode]
+        sgs = [sgl[(t + j) % len(sgl)] for j in range(k)]
+        sgs = {"ints": sgs, "objs": sgs, "none": None, "scalar": sgs[0], "short": sgs[:k - 1] or None}[sg_mode]
+        nsg = 0 if sgs is None else 1 if isinstance(sgs, int) else len(sgs)
+        sgnum = lambda j: 0 if j >= nsg else (sgs if isinstance(sgs, int) else sgs[j])  # noqa
+        if pg_mode == "none":
+            pgs = None
+        elif pg_mode == "scalar":
+            pgs = SGS[sgnum(0)] if sgnum(0) else PGS[t % 10]
+        else:       # a point group where there is no space group, the derived one where there is
+            pgs = [(SGS[sgnum(j)] if sgnum(j) else PGS[(t + j) % 10]) if (pg_mode == "list" or sgnum(j)) else None
+                   for j in range(k)]
+        npg = 0 if pgs is None else 1 if isinstance(pgs, str) else len(pgs)
+        pgname = lambda j: None if j >= npg else (pgs if isinstance(pgs, str) else pgs[j])  # noqa
+        ns = {"none": 0, "titles": k, "titles-long": k + 1}[st_mode]
+        titles = ["s%d" % j for j in range(ns)]
+        idl = R.sample(range(0, 9), k)
+        idv = {"none": None, "list": idl, "ndarray": idl, "scalar": idl[0], "short": idl[:k - 1] or None}[id_mode]
+        kw = {}
+        if names is not None:
+            kw["names"] = names if isinstance(names, str) else list(names)
+        if sgs is not None:
+            kw["space_groups"] = ([GetSpaceGroup(g) for g in sgs] if sg_mode == "objs" else
+                                  sgs if isinstance(sgs, int) else list(sgs))
+        if pgs is not None:
+            kw["point_groups"] = pgs if isinstance(pgs, str) else list(pgs)
+        if ns:
+            kw["structures"] = [Structure(title=ti) for ti in titles]
+        if idv is not None:
+            kw["ids"] = np.array(idv, dtype=int) if id_mode == "ndarray" else idv
+        # reference
+        nn = 0 if names is None else 1 if isinstance(names, str) else len(names)
+        idg = [] if idv is None else [idv] if isinstance(idv, int) else list(idv)
+        n = max(nn, nsg, npg, len(idg), ns)
+        if idv is None:
+            idg = list(range(n))
+        out, extra_ = [], 0
+        for j in range(n):
+            if j < len(idg):
+                key = idg[j]
+            else:
+                key = max(idg) + extra_ + 1
+                extra_ += 1
+            nm = (names if isinstance(names, str) else names[j]) if j < nn else (titles[j] if j < ns else "")
+            g = SGS[sgnum(j)] if sgnum(j) else pgname(j)
+            out.append((key, {"n": nm, "g": g, "s": sgnum(j)}))
+        exp = ("ok", [[i, p] for i, p in ref_dict(out)])
+        st(f"x/pl/ctor/fields/sg={sg_mode}/ids={id_mode}")
+        got = x_try(lambda: obs_pl(PhaseList(**kw)))
+        if got != exp:
+            jk = {a: (b.tolist() if isinstance(b, np.ndarray) else [str(z.number) if hasattr(z, "number") else
+                                                                      getattr(z, "title", z) for z in b]
+                      if isinstance(b, list) else b) for a, b in kw.items()}
+            if got[0] == "err":
+                asp = "raises:scalar=" + "+".join(a for a, b in (("names", name_mode), ("sg", sg_mode), ("pg", pg_mode),
+                                                                 ("ids", id_mode)) if b == "scalar")
+            elif [e[0] for e in got[1]] != [e[0] for e in exp[1]]:
+                asp = f"ids={id_mode}"
+            elif [e[1]["n"] for e in got[1]] != [e[1]["n"] for e in exp[1]]:
+                asp = f"names={name_mode}:struct={st_mode}"
+            else:
+                asp = f"symmetry:sg={sg_mode}:pg={pg_mode}"
+            fail(f"pl:ctor:fields-alt:{asp}",
+                 f"PhaseList({jk}): expected {exp}, got {got}", xrep("fields-ctor", kwargs=jk, t=t))
+
+
+# ---------------------------------------------------------------- X3: map construction, other inputs
+def x_caller(strat, u, t):
+    """phase list JSON for the stratum (None | fewer | equal | more | more+ni) given the ids in the data"""
+    if strat == "nolist":
+        return None, None
+    k = {"fewer": max(len(u) - 1, 0), "equal": len(u), "more": len(u) + 1 + t % 2, "more+ni": len(u) + 1}[strat]
+    how = t % 3
+    if how == 0 and all(i in range(8) for i in u):
+        pool = sorted(set(u) | set(R.sample(range(0, 8), min(8, k))))    # ids overlapping the data
+        ids = sorted(R.sample(pool, k))
+    elif how == 1:
+        ids = list(range(k))
+    else:
+        ids = sorted(R.sample(range(0, 10), k))
+    return x_pl(ids, addni=(strat == "more+ni"))
+
+
+def x_init_alt():
+    modes = ["none", "float", "int8", "int32", "2d", "empty", "2d-none"]
+    strats = ["nolist", "fewer", "equal", "more", "more+ni"]
+    t = 0
+    for mode in modes:
+        for strat in strats:
+            for _ in range(2):
+                t += 1
+                if mode == "empty" and strat != "nolist":
+                    continue
+                shape = R.choice([(2, 2), (2, 3), (3, 2), (3, 4)]) if mode in ("2d", "empty", "2d-none") else \
+                    (R.choice([1, 2, 3, 5, 7]),)
+                n = int(np.prod(shape))
+                pid = [0] * n if mode in ("none", "empty", "2d-none") else rand_pid(n)[0]
+                u = sorted(set(pid) - {-1})
+                ctor, caller = x_caller(strat, u, t)
+                cb = None if caller is None else obs_pl(caller)
+                kw = {}
+                if mode in ("2d", "2d-none"):
+                    kw.update(create_coordinate_arrays(shape)[0])
+                if mode not in ("none", "2d-none", "empty"):
+                    kw["phase_id"] = np.array(pid, dtype={"float": float, "int8": np.int8, "int32": np.int32,
+                                                          "2d": int}[mode])
+                rep = xrep("init-alt", mode=mode, shape=list(shape), pid=pid, pl=ctor, addni=(strat == "more+ni"))
+                st(f"x/init/{mode}/{strat}")
+                try:
+                    x = CrystalMap.empty(shape) if mode == "empty" else \
+                        CrystalMap(Rotation.identity(n), phase_list=caller, **kw)
+                except Exception as e:  # noqa
+                    fail(f"init:alt:{mode}:raises", f"construction raises {exn(e)}: {e}", rep)
+                    continue
+                got, exp = obs_pl(x.phases), init_reference(pid, cb)
+                if got != exp:
+                    fail(f"init:alt:{mode}:rule:{strat}", f"phases after construction {got}, expected {exp} "
+                         f"(ids {pid}, caller's list {cb})", rep)
+                if [int(i) for i in x._phase_id] != pid or x._phase_id.dtype.kind != "i" or \
+                        [int(i) for i in x.phase_id] != pid:
+                    fail(f"init:alt:{mode}:phase_id", f"phase ids of the map {x._phase_id!r}, given {pid}", rep)
+                if caller is not None and obs_pl(caller) != cb:
+                    fail("init:caller-list-altered", f"caller's phase list changed from {cb} to {obs_pl(caller)}", rep)
+                check_invariant([x], "init-alt", rep)
+
+
+# ---------------------------------------------------------------- X4: queries on views
+def x_quats(shape):
+    return np.array([rand_unit_quat(R) for _ in range(int(np.prod(shape)))]).reshape(tuple(shape) + (4,))
+
+
+def x_views(m):
+    for t in range(m):
+        two_d = t % 2 == 1
+        krot = [None, 2, 3][t % 3]
+        with_ni = (t // 2) % 2 == 0
+        none_pg = t % 5 == 0
+        shape = R.choice([(2, 3), (3, 3), (2, 4)]) if two_d else (R.choice([3, 4, 6, 9]),)
+        n = int(np.prod(shape))
+        nph = R.choice([1, 2, 3])
+        ids = sorted(R.sample(range(0, 7), nph))
+        pgs = [PGS[(t + j) % 10] for j in range(nph)]
+        if none_pg:
+            pgs[t % nph] = None
+        base = ids + ([-1] if with_ni else [])
+        pid = (base + [R.choice(base) for _ in range(n)])[:n]
+        R.shuffle(pid)
+        ids = sorted(set(pid) - {-1})           # n may be smaller than the number of ids drawn
+        ctor, caller = x_pl(ids, pgs=pgs[:len(ids)])
+        q = x_quats((n,) if krot is None else (n, krot))
+        iq = np.array([R.randrange(-30, 31) / 4 for _ in range(n)])
+        ci = np.array([R.randrange(-9, 10) for _ in range(n)])
+        kw = create_coordinate_arrays(shape)[0] if two_d else {}
+        rep = xrep("views", shape=list(shape), pid=pid, pl=ctor, rotations_per_point=krot or 1, selections=[])
+        x = CrystalMap(Rotation(q), phase_id=np.array(pid), phase_list=caller, prop={"iq": iq.copy(), "ci": ci.copy()}, **kw)
+        parr = np.array(pid)
+        entries = dict(obs_pl(x.phases))
+        name_id = {}
+        for i, p in entries.items():
+            name_id.setdefault(p["n"], i)
+        views = [(x, np.ones(n, dtype=bool))]
+        for j in range(4):
+            pv, pm = views[R.randrange(len(views))]
+            if pm.sum() == 0:
+                continue
+            how = ["mask", "name", "indexed", "name-tuple", "not_indexed"][(t + j) % 5]
+            if how == "not_indexed" and -1 not in entries:
+                how = "mask"
+            if how == "mask":
+                sel = np.array([R.random() < 0.6 for _ in range(int(pm.sum()))])
+                cm = np.zeros(n, dtype=bool)
+                cm[np.where(pm)[0]] = sel
+                key = sel
+            elif how in ("name", "name-tuple"):
+                nms = R.sample(sorted(name_id), min(len(name_id), 1 if how == "name" else 2))
+                cm = pm & np.isin(parr, [i for i, p in entries.items() if p["n"] in nms])
+                key = nms[0] if how == "name" else tuple(nms)
+            else:
+                cm = pm & ((parr != -1) if how == "indexed" else (parr == -1))
+                key = how
+            rep["selections"].append({"from_view": [bool(b) for b in pm], "key": key.tolist() if how == "mask" else key})
+            views.append((pv[key], cm))
+        for v, mk in views:
+            st(f"x/view/rot={krot or 1}/2d={int(two_d)}")
+            rv = {**rep, "view": [bool(b) for b in mk]}
+            if [bool(b) for b in v.is_in_data] != [bool(b) for b in mk]:
+                fail("view:mask", f"selection is_in_data {v.is_in_data.astype(int)}, expected {mk.astype(int)}", rv)
+                continue
+            cnt = int(mk.sum())
+            ci_got = [int(z) for z in v.ci]     # attribute access first: the shared property dict still holds
+            #                                     the mask of the view queried before
+            chk = [("size", int(v.size), cnt), ("id", [int(i) for i in v.id], [int(i) for i in np.where(mk)[0]]),
+                   ("phase_id", [int(i) for i in v.phase_id], [int(i) for i in parr[mk]]),
+                   ("is_indexed", [bool(b) for b in v.is_indexed], [bool(b) for b in parr[mk] != -1]),
+                   ("all_indexed", bool(v.all_indexed), bool(np.all(parr[mk] != -1))),
+                   ("prop-get:ci", ci_got, [int(z) for z in ci[mk]]),
+                   ("prop-get:iq", [float(z) for z in v.prop["iq"]], [float(z) for z in iq[mk]]),
+                   ("rotations", np.asarray(v.rotations.data), q[mk])]
+            for nm, got, exp in chk:
+                if nm == "rotations":
+                    if got.shape == exp.shape and np.allclose(got, exp, atol=1e-12):
+                        continue
+                    got, exp = got.tolist(), exp.tolist()
+                if got != exp:
+                    fail(f"view:{nm}", f"{nm} of a selection: got {got}, expected {exp} (points in data {mk.astype(int)}, "
+                         f"phase ids {pid})", rv)
+            if cnt == 0:
+                continue
+            present = sorted(set(int(i) for i in parr[mk]))
+            exp = ("ok", [[i, entries[i]] for i in present])
+            got = x_try(lambda: obs_pl(v.phases_in_data))
+            if got != exp:
+                fail(f"phases_in_data:entries:single={int(len(present) == 1)}",
+                     f"phases_in_data {got}, expected {exp}", rv)
+            got = x_try(lambda: v.orientations)
+            if len(present) > 1:
+                if got != ("err", "ValueError"):
+                    fail("orientations:many-phases-accepted", f"selection with phases {present}: orientations gives {got}", rv)
+            elif entries[present[0]]["g"] is None:
+                if got != ("err", "TypeError"):
+                    fail("orientations:no-point-group", f"phase {present[0]} has no point group: orientations gives {got}", rv)
+            elif got[0] == "err":
+                fail("orientations:raises", f"single-phase selection (phase {present[0]}): orientations raises {got[1]}", rv)
+            else:
+                o = got[1]
+                expq = q[mk] if krot is None else q[mk][:, 0]
+                if o.symmetry.name != entries[present[0]]["g"]:
+                    fail("orientations:point-group", f"single-phase selection of phase {present[0]}: orientations carry "
+                         f"{o.symmetry.name}, the phase has {entries[present[0]]['g']}", rv)
+                if tuple(o.shape) != (cnt,) or not np.allclose(o.data, expq, atol=1e-12):
+                    fail(f"orientations:data:rot={krot or 1}", f"orientations of a selection of {cnt} points: shape {o.shape}, "
+                         f"data differ from the (first) rotations of the selected points", rv)
+
+
+# ---------------------------------------------------------------- X5: phase_id assignment, value types
+def x_setpid_types():
+    vts = ["list", "tuple", "npint64", "npint32", "arr0d", "pyfloat", "int8arr", "floatarr", "len1list"]
+    t = 0
+    for vt in vts:
+        for neg in (0, 1):
+            for via_sel in (0, 1):
+                for ni_listed in (0, 1):
+                    t += 1
+                    n = R.choice([3, 4, 5, 6])
+                    ids = sorted(R.sample(range(0, 6), 2))
+                    base = ids + ([-1] if ni_listed else [])
+                    pid = (base + [R.choice(base) for _ in range(n)])[:n]
+                    R.shuffle(pid)
+                    ctor, caller = x_pl(ids)
+                    x = CrystalMap(Rotation.identity(n), phase_id=np.array(pid), phase_list=caller)
+                    before = obs_pl(x.phases)
+                    listed = [e[0] for e in before]
+                    mk = np.ones(n, dtype=bool)
+                    if via_sel:
+                        while True:
+                            mk = np.array([R.random() < 0.5 for _ in range(n)])
+                            if 0 < mk.sum():
+                                break
+                    v = x[mk] if via_sel else x
+                    cnt = int(mk.sum())
+                    scalar = vt in ("npint64", "npint32", "arr0d", "pyfloat", "len1list")
+                    pool = [i for i in listed if i != -1]
+                    if scalar:
+                        vals = [-1 if neg else R.choice(pool)] * cnt
+                        z = vals[0]
+                        val = {"npint64": np.int64(z), "npint32": np.int32(z), "arr0d": np.array(z), "pyfloat": float(z),
+                               "len1list": [z]}[vt]
+                    else:
+                        vals = [R.choice(pool) for _ in range(cnt)]
+                        if neg:
+                            vals[R.randrange(cnt)] = -1
+                        val = {"list": list(vals), "tuple": tuple(vals), "int8arr": np.array(vals, dtype=np.int8),
+                               "floatarr": np.array(vals, dtype=float)}[vt]
+                    rep = xrep("setpid-types", pid=pid, pl=ctor, selection=[bool(b) for b in mk], via_selection=bool(via_sel),
+                               value_type=vt, value=[vals[0]] if scalar else vals)
+                    st(f"x/setpid/{vt}/sel={via_sel}")
+
+                    def assign():
+                        v.phase_id = val
+                    got = x_try(assign)
+                    sig = f"set_phase_id:valtype={vt}"
+                    if got[0] == "err":
+                        fail(f"{sig}:raises", f"assigning {val!r} ({vt}) to {cnt} points raises {got[1]}", rep)
+                    want = list(pid)
+                    for j, z in zip(np.where(mk)[0], vals):
+                        want[j] = z
+                    now = [int(i) for i in x._phase_id]
+                    if now != want:
+                        fail(f"{sig}:frame", f"phase ids after assignment {now}, expected exactly the selected points "
+                             f"changed: {want}", rep)
+                    exp = before if (-1 in listed or not neg) else [[-1, {"n": "not_indexed", "g": None, "s": 0}]] + before
+                    if obs_pl(x.phases) != exp:
+                        fail(f"{sig}:phase-list" + (":not_indexed-missing" if -1 not in x.phases.ids and neg else ""),
+                             f"phase list after assigning {val!r}: {obs_pl(x.phases)}, expected {exp}", rep)
+                    elif got[0] == "ok" and now == want:
+                        check_invariant([x, v], "setpid-" + vt, rep)
+
+
+# ---------------------------------------------------------------- X6: property assignment, value kinds
+def x_setprop_kinds():
+    kinds = ["bool-arr", "bool-scalar", "list-int", "list-float", "list-bool", "f32-arr", "i32-arr", "i8-scalar",
+             "len1-list", "2d-arr", "2d-scalar", "2d-new-full"]
+    olds = ["i", "f", "b", "new"]
+    t = 0
+    for kind in kinds:
+        for via_sel in (0, 1):
+            for old in olds:
+                t += 1
+                two = kind.startswith("2d")
+                if two and (old in ("b", "new")) != (kind == "2d-new-full" and old == "new"):
+                    continue
+                if kind == "2d-new-full" and via_sel:
+                    continue
+                n = R.choice([2, 3, 4, 5, 7])
+                pid = rand_pid(n)[0]
+                mk = np.ones(n, dtype=bool)
+                if via_sel:
+                    while True:
+                        mk = np.array([R.random() < 0.5 for _ in range(n)])
+                        if 0 < mk.sum() < n or n == 1:
+                            break
+                cnt = int(mk.sum())
+                w = 2 + t % 2
+                oshape = (n, w) if two else (n,)
+                if old == "new":
+                    oarr = None
+                elif old == "i":
+                    oarr = np.array([R.randrange(-9, 10) for _ in range(int(np.prod(oshape)))]).reshape(oshape)
+                elif old == "f":
+                    oarr = np.array([R.randrange(-30, 31) / 4 for _ in range(int(np.prod(oshape)))]).reshape(oshape)
+                else:
+                    oarr = np.array([R.random() < 0.5 for _ in range(n)])
+                ri = lambda: R.randrange(-9, 10)  # noqa
+                rf = lambda: R.randrange(-30, 31) / 4  # noqa
+                rb = lambda: R.random() < 0.5  # noqa
+                if kind == "bool-arr":
+                    ref = np.array([rb() for _ in range(cnt)]); val = ref.copy()
+                elif kind == "bool-scalar":
+                    z = rb(); ref = np.array([z] * cnt); val = z
+                elif kind == "list-int":
+                    ref = np.array([ri() for _ in range(cnt)]); val = [int(z) for z in ref]
+                elif kind == "list-float":
+                    ref = np.array([rf() for _ in range(cnt)]); val = [float(z) for z in ref]
+                elif kind == "list-bool":
+                    ref = np.array([rb() for _ in range(cnt)]); val = [bool(z) for z in ref]
+                elif kind == "f32-arr":
+                    ref = np.array([rf() for _ in range(cnt)]); val = ref.astype(np.float32)
+                elif kind == "i32-arr":
+                    ref = np.array([ri() for _ in range(cnt)]); val = ref.astype(np.int32)
+                elif kind == "i8-scalar":
+                    z = ri(); ref = np.array([z] * cnt); val = np.int8(z)
+                elif kind == "len1-list":
+                    z = rf(); ref = np.array([z] * cnt); val = [z]
+                elif kind == "2d-arr":
+                    ref = np.array([ri() for _ in range(cnt * w)]).reshape(cnt, w); val = ref.copy()
+                elif kind == "2d-scalar":
+                    z = ri(); ref = np.full((cnt, w), z); val = z
+                else:
+                    ref = np.array([rf() for _ in range(n * w)]).reshape(n, w); val = ref.copy()
+                prop = {} if oarr is None else {"p": oarr.copy()}
+                x = CrystalMap(Rotation.identity(n), phase_id=np.array(pid), prop=prop)
+                v = x[mk] if via_sel else x
+                attr = oarr is not None and t % 2 == 0
+                rep = xrep("setprop-kinds", pid=pid, selection=[bool(b) for b in mk], via_selection=bool(via_sel),
+                           old=None if oarr is None else oarr.tolist(), value_kind=kind, value=ref.tolist(),
+                           by_attribute=attr)
+                st(f"x/setprop/{kind}/sel={via_sel}")
+                pl_before = obs_pl(x.phases)
+
+                def assign():
+                    if attr:
+                        setattr(v, "p", val)
+                    else:
+                        v.prop["p"] = val
+                got = x_try(assign)
+                sig = f"set_prop:alt:{kind}:old={old}"
+                if got[0] == "err":
+                    fail(f"{sig}:raises", f"assigning {val!r} to property 'p' ({None if oarr is None else oarr.tolist()}) of "
+                         f"{cnt} points raises {got[1]}", rep)
+                    continue
+                new = np.asarray(dict.__getitem__(x._prop, "p"))
+                o = np.zeros(new.shape) if oarr is None else oarr
+                if new.shape != o.shape or not np.array_equal(new[mk], ref) or not np.array_equal(new[~mk], o[~mk]):
+                    inside = new.shape == o.shape and np.array_equal(new[mk], ref)
+                    fail(f"{sig}:frame:{'outside' if inside else 'inside'}-changed",
+                         f"property {o.tolist()} assigned {ref.tolist()} through selection {mk.astype(int)}: got "
+                         f"{new.tolist()} ({new.dtype}), expected exactly the selected points changed", rep)
+                back = np.asarray(v.prop["p"])
+                if back.shape != ref.shape or not np.array_equal(back, ref) or not np.array_equal(np.asarray(v.p), ref):
+                    fail(f"{sig}:read-back", f"reading the property through the selection gives {back.tolist()}, "
+                         f"assigned {ref.tolist()}", rep)
+                if [int(i) for i in x._phase_id] != pid or obs_pl(x.phases) != pl_before:
+                    fail("set_prop:touches-phases", "property assignment changed phase ids or phases", rep)
+
+
+# ---------------------------------------------------------------- X7: phases setter guard
+def x_phases_setter():
+    t = 0
+    for via_sel in (0, 1):
+        for delta in (-2, -1, 0, 1):
+            for with_ni in (0, 1):
+                t += 1
+                n = R.choice([4, 5, 6, 8])
+                ids = sorted(R.sample(range(0, 6), 3))
+                base = ids + ([-1] if with_ni else [])
+                pid = (base + [R.choice(base) for _ in range(n)])[:n]
+                R.shuffle(pid)
+                ctor, caller = x_pl(ids)
+                x = CrystalMap(Rotation.identity(n), phase_id=np.array(pid), phase_list=caller)
+                mk = np.ones(n, dtype=bool)
+                if via_sel:
+                    while True:
+                        mk = np.array([R.random() < 0.5 for _ in range(n)])
+                        if mk.sum() > 0:
+                            break
+                v = x[mk] if via_sel else x
+                u = len(set(np.array(pid)[mk].tolist()))
+                k = u + delta
+                if k < 0:
+                    continue
+                nctor, newl = x_pl(list(range(10, 10 + k)))
+                old_list, old_obs = v.phases, obs_pl(v.phases)
+                rep = xrep("phases-setter", pid=pid, pl=ctor, selection=[bool(b) for b in mk], new_list=nctor)
+                st(f"x/phases-setter/sel={via_sel}/delta={delta}")
+
+                def assign():
+                    v.phases = newl
+                got = x_try(assign)
+                if k < u:
+                    if got != ("err", "ValueError") or v.phases is not old_list or obs_pl(v.phases) != old_obs:
+                        fail("set_phases:guard:fewer-accepted", f"{u} unique phase ids in the data, a list of {k} phases "
+                             f"was assigned: {got}", rep)
+                else:
+                    if got[0] == "err" or v.phases is not newl:
+                        fail("set_phases:guard:enough-rejected", f"{u} unique phase ids in the data, assigning a list of "
+                             f"{k} phases gives {got}", rep)
+                if [int(i) for i in x._phase_id] != pid:
+                    fail("set_phases:touches-phase-ids", "assigning a phase list changed the phase ids", rep)
+
+
+# ---------------------------------------------------------------- X8: independence (caller's list, deep copy)
+def x_independence():
+    strats = ["fewer", "equal", "more", "more+ni"]
+    for t in range(16):
+        strat = strats[t % 4]
+        n = R.choice([3, 4, 6])
+        pid = rand_pid(n)[0]
+        u = sorted(set(pid) - {-1})
+        ctor, caller = x_caller(strat, u, t)
+        cb = obs_pl(caller)
+        rep = xrep("independence", pid=pid, pl=ctor, addni=(strat == "more+ni"))
+        x = CrystalMap(Rotation.identity(n), phase_id=np.array(pid), phase_list=caller,
+                       prop={"iq": np.arange(n, dtype=float)})
+        st(f"x/independence/caller/{strat}")
+        mine = [id(p) for _, p in caller]
+        if any(id(p) in mine for _, p in x.phases) or x.phases is caller:
+            fail("init:caller-list-shared:objects", "the map's phase list holds the caller's Phase objects (no deep copy)", rep)
+        xb = obs_pl(x.phases)
+        for j, (_, p) in enumerate(x.phases):
+            if p.name != "not_indexed":
+                p.name = "changed%d" % j
+                p.point_group = "3"
+        x.phases.add(Phase("added-to-map"))
+        if obs_pl(caller) != cb:
+            fail("init:caller-list-shared:map->caller", f"changing the map's phases changed the caller's list: {cb} -> "
+                 f"{obs_pl(caller)}", rep)
+        x2 = CrystalMap(Rotation.identity(n), phase_id=np.array(pid), phase_list=caller)
+        for j, (_, p) in enumerate(caller):
+            p.name = "caller%d" % j
+            p.point_group = "6"
+        if caller.ids:
+            del caller[caller.ids[-1]]
+        caller.add(Phase("added-to-caller"))
+        if obs_pl(x2.phases) != xb:
+            fail("init:caller-list-shared:caller->map", f"changing the caller's list changed the map's phases: {xb} -> "
+                 f"{obs_pl(x2.phases)}", rep)
+        # deep copy of a map (and of a selection) is independent of the map
+        st("x/independence/deepcopy")
+        x3 = CrystalMap(Rotation.identity(n), phase_id=np.array(pid), prop={"iq": np.arange(n, dtype=float)})
+        s0 = obs_state([x3])
+        mk = np.array([(j + t) % 2 == 0 for j in range(n)])
+        src = x3[mk] if t % 2 and mk.any() else x3
+        y = src.deepcopy()
+        lst = [int(i) for i in y.phases.ids if i != -1]
+        newv = -1 if t % 4 < 2 or not lst else lst[0]
+        y.phase_id = newv
+        y.prop["iq"] = 99.0
+        y.phases.add(Phase("added-to-copy"))
+        if obs_state([x3]) != s0:
+            fail("deepcopy:shares-state", f"changing a deepcopy changed the map: {s0} -> {obs_state([x3])}", rep)
+        want = np.where(src.is_in_data, newv, np.array(pid))
+        if [int(i) for i in y._phase_id] != [int(i) for i in want]:
+            fail("deepcopy:set_phase_id:frame", f"phase ids of the copy {y._phase_id}, expected {want}", rep)
+        check_invariant([y], "deepcopy-setpid", rep)
+
+
+# ---------------------------------------------------------------- X9: 2D maps, slice/int selections, assignment
+def x_bbox(mask2d):
+    r = np.where(mask2d.any(axis=1))[0]
+    c = np.where(mask2d.any(axis=0))[0]
+    return slice(r.min(), r.max() + 1), slice(c.min(), c.max() + 1)
+
+
+def x_rand_axis_key(ln, allow_int=True):
+    k = R.choice(["all", "range", "range", "step", "int", "neg", "tail"])
+    if k == "all" or ln == 1:
+        return slice(None)
+    if k == "range":
+        a = R.randrange(0, ln)
+        return slice(a, R.randrange(a + 1, ln + 1))
+    if k == "step":
+        return slice(R.choice([None, 0, 1]), None, 2)
+    if k == "int" and allow_int:
+        return R.randrange(0, ln)
+    if k == "neg":
+        return slice(-R.randrange(1, ln + 1), None)
+    return slice(R.randrange(0, ln), None)
+
+
+def x_key_json(key):
+    return [[k.start, k.stop, k.step] if isinstance(k, slice) else int(k) for k in key]
+
+
+def x_select2d(m):
+    for t in range(m):
+        shape = [(2, 2), (2, 3), (3, 2), (3, 4), (4, 3), (4, 5)][t % 6]
+        n = shape[0] * shape[1]
+        ids = sorted(R.sample(range(0, 6), 2))
+        pid = (ids + [-1] + [R.choice(ids + [-1]) for _ in range(n)])[:n]
+        R.shuffle(pid)
+        ctor, caller = x_pl(sorted(set(pid) - {-1}))
+        iq = np.array([R.randrange(-30, 31) / 4 for _ in range(n)])
+        x = CrystalMap(Rotation.identity(n), phase_id=np.array(pid), phase_list=caller, prop={"iq": iq.copy()},
+                       **create_coordinate_arrays(shape)[0])
+        idx = np.arange(n).reshape(shape)
+        v, mk = x, np.ones(shape, dtype=bool)
+        keys = []
+        depth = [1, 2, 1, 3][t % 4]
+        ok = True
+        for d in range(depth):
+            bb = x_bbox(mk)
+            ext = (bb[0].stop - bb[0].start, bb[1].stop - bb[1].start)
+            form = ["pair", "row-only", "pair", "pair"][(t + d) % 4]
+            key = (x_rand_axis_key(ext[0]),) if form == "row-only" else (x_rand_axis_key(ext[0]), x_rand_axis_key(ext[1]))
+            sel = np.atleast_1d(idx[bb][key]).ravel()
+            nm = mk & np.isin(idx, sel)
+            if not nm.any():
+                break                   # empty selections have no data extent to slice further
+            keys.append(x_key_json(key))
+            rep = xrep("select2d", shape=list(shape), pid=pid, pl=ctor, keys=list(keys))
+            st(f"x/select2d/depth={d + 1}/{form}")
+            got = x_try(lambda: v[key[0] if len(key) == 1 else key])
+            if got[0] == "err":
+                fail("select2d:raises", f"selection {keys} of a {shape} map raises {got[1]}", rep)
+                ok = False
+                break
+            v, mk = got[1], nm
+            if [bool(b) for b in v.is_in_data] != [bool(b) for b in mk.ravel()]:
+                fail(f"select2d:mask:depth={d + 1}", f"selection {keys} of a {shape} map: points in data "
+                     f"{v.is_in_data.astype(int).reshape(shape).tolist()}, expected {mk.astype(int).tolist()}", rep)
+                ok = False
+                break
+        if not ok or v is x:
+            continue
+        rep = xrep("select2d", shape=list(shape), pid=pid, pl=ctor, keys=keys)
+        fm = mk.ravel()
+        cnt = int(fm.sum())
+        if [int(i) for i in v.phase_id] != [int(i) for i in np.array(pid)[fm]]:
+            fail("select2d:phase_id", f"phase ids of selection {keys}: {v.phase_id}, expected {np.array(pid)[fm]}", rep)
+        # assignments through the slice selection change exactly its points
+        arr = t % 2 == 0
+        newid = [R.choice(ids + [-1]) for _ in range(cnt)] if arr else [R.choice(ids + [-1])] * cnt
+        newiq = [R.randrange(-30, 31) / 4 for _ in range(cnt)] if arr else [R.randrange(-30, 31) / 4] * cnt
+        rep.update(assign_phase_id=newid, assign_iq=newiq, as_array=arr)
+        st(f"x/select2d/assign/arr={int(arr)}")
+
+        def assign():
+            v.phase_id = np.array(newid) if arr else newid[0]
+            v.iq = np.array(newiq) if arr else newiq[0]
+        got = x_try(assign)
+        if got[0] == "err":
+            fail("select2d:assign:raises", f"assignment through selection {keys} raises {got[1]}", rep)
+            continue
+        wantp, wantq = np.array(pid), iq.copy()
+        wantp[fm], wantq[fm] = newid, newiq
+        if [int(i) for i in x._phase_id] != [int(i) for i in wantp]:
+            fail("select2d:set_phase_id:frame", f"phase ids after assigning {newid} through {keys}: "
+                 f"{x._phase_id.tolist()}, expected {wantp.tolist()}", rep)
+        elif not np.array_equal(dict.__getitem__(x._prop, "iq"), wantq):
+            fail("select2d:set_prop:frame", f"property after assigning {newiq} through {keys}: "
+                 f"{dict.__getitem__(x._prop, 'iq').tolist()}, expected {wantq.tolist()}", rep)
+        else:
+            check_invariant([x, v], "select2d-assign", rep)
+
+
+if ONLY is None and P.get("extra", 1):
+    from common import rand_unit_quat
+    from orix.crystal_map import create_coordinate_arrays
+    big = 1 if N <= 1000 else 4
+    x_phase_list_entries(40 * big)
+    x_fields_ctor(70 * big)
+    for _ in range(big):
+        x_init_alt()
+        x_setpid_types()
+        x_setprop_kinds()
+        x_phases_setter()
+        x_independence()
+    x_views(36 * big)
+    x_select2d(48 * big)
+
 emit({"cases": cases, "fails": fails, "strata": strata})
